@@ -359,6 +359,24 @@ impl VerifCloudServer {
         })
     }
 
+    /// Like [`VerifCloudServer::new`], but the requests made while the server is constructed
+    /// (reading / creating the salt object) already pass through `gate`.
+    pub async fn new_gated(
+        store: MemStore,
+        client: usize,
+        encryption_secret: Vec<u8>,
+        gate: Option<Arc<dyn Gate>>,
+    ) -> Result<Self> {
+        let svc = MemService {
+            store,
+            client,
+            gate,
+        };
+        Ok(VerifCloudServer {
+            inner: CloudServer::new(svc, encryption_secret).await?,
+        })
+    }
+
     pub fn set_gate(&mut self, gate: Option<Arc<dyn Gate>>) {
         self.inner.verif_service_mut().gate = gate;
     }
